@@ -97,7 +97,7 @@ CreateTableReasons(B, d, p) ==
 ExpActions(B, d) ==
   FlatSeq([i \in DOMAIN d.ops |->
     LET o == d.ops[i] IN
-    CASE o.k \in {"add_column", "add_column_if_not_exists"} -> <<[k |-> "add_column", col |-> o.col]>>
+    CASE o.k \in {"add_column", "add_column_if_not_exists"} -> <<[k |-> "add_column", col |-> o.col, ine |-> o.k = "add_column_if_not_exists"]>>
       [] o.k = "modify_column" ->
            IF B = "mysql" THEN <<[k |-> "modify_column", col |-> o.col]>>
            ELSE (IF "type" \in DOMAIN o.col THEN <<[k |-> "alter_type", name |-> o.col.name, type |-> o.col.type]>> ELSE <<>>)
@@ -115,7 +115,8 @@ ExpActions(B, d) ==
       [] o.k = "drop_fk" -> <<[k |-> "drop_fk", name |-> o.name]>>])
 ActionReasons(B, x, p) ==
   IF x.k # p.k THEN {"alter_action_differs:" \o x.k}
-  ELSE CASE x.k \in {"add_column", "modify_column"} -> ColumnReasons(B, x.col, p.col)
+  ELSE CASE x.k = "add_column" -> ColumnReasons(B, x.col, p.col) \cup (IF p.ine = x.ine THEN {} ELSE {"add_column_if_not_exists_differs"})
+         [] x.k = "modify_column" -> ColumnReasons(B, x.col, p.col)
          [] x.k = "alter_type" -> IF ~DialectHasType(B, x.type) THEN {"?dialect_lacks_type"} ELSE IF p.name = x.name /\ TypeOk(B, x.type, UpSeq(p.type), FALSE) THEN {} ELSE {"alter_type_differs"}
          [] x.k = "add_constraint" -> IF (IF "rest" \in DOMAIN p.c /\ p.c.kind # "fk" THEN StripRest(p.c) ELSE p.c) = x.c THEN {} ELSE {"added_constraint_differs"}
          [] OTHER -> IF p = x THEN {} ELSE {"alter_action_differs:" \o x.k}
